@@ -372,7 +372,7 @@ PARTS = {
 def vacuity(merged, tier):
     m = merged["machine"]
     n = max(1, m["evaluations"])
-    for cls, lim in (("crossed_chunk", 0.5), ("change_after_chunk", 0.2), ("shock", 0.5), ("zero_noise", 0.3), ("correlated", 0.15)):
+    for cls, lim in (("crossed_chunk", 0.2), ("change_after_chunk", 0.08), ("shock", 0.2), ("zero_noise", 0.12), ("correlated", 0.06)):
         if m["classes"].get(cls, 0) / n < lim:
             return f"machine: class {cls} below {lim:.0%}"
     if merged["probe"]["skipped"] == merged["probe"]["evaluations"]:
